@@ -53,7 +53,9 @@ def srtRep (s : Subs) : Bool :=
        | some a, some b => (a.text.head?.map Go.isSpace) != some true && (b.text.getLast?.map Go.isSpace) != some true
        | _, _ => true) &&
       l.items.all fun li =>
-      trimSpace li.text ≠ [] && !(li.text.any fun c => c = '\n' || c = '\r') && !contains "-->".toList li.text &&
+      -- a visible character, or a no-break space (written &nbsp;, which is text to the reader)
+      (trimSpace li.text ≠ [] || li.text.any (· = Char.ofNat 0xA0)) &&
+      !(li.text.any fun c => c = '\n' || c = '\r') && !contains "-->".toList li.text &&
       (SRT.kvGet li.attrs "SRTPosition").isNone &&
       (match SRT.kvGet li.attrs "SRTColor" with | some c => c ≠ [] && !(c.any fun ch => ch = '"' || ch = '&' || ch = '>') | none => true)
 
